@@ -272,3 +272,77 @@ Example ex_alpha_both_sides :
 Proof.
   vm_compute. split; [reflexivity|]. split; [eexists; repeat split; reflexivity|]. discriminate.
 Qed.
+
+(* ---- for-in loops: every iteration has a loop variable of its own ----------------------- *)
+From NV Require Import Src.EvalForIn.
+From Coq Require Import Sorted.
+
+(* one iteration over a range: the loop variable is bound to a BRAND-NEW cell (it did not exist
+   before) holding the current value; no other cell, array, record or output changes; the loop
+   continues with the next value *)
+Theorem forin_range_step_fresh_cell : forall st s,
+  is_range s ->
+  match forin_step st s with
+  | LsDone => match s with LUp z zb => (zb < z)%Z | LDown z zb => (z < zb)%Z | LArr _ _ => False end
+  | LsFault _ => False
+  | LsBind c st1 s' =>
+    exists z zb, (s = LUp z zb /\ (z <= zb)%Z /\ s' = LUp (wrap32 (z + 1)) zb \/
+                  s = LDown z zb /\ (zb <= z)%Z /\ s' = LDown (wrap32 (z - 1)) zb) /\
+    c = length (cells st) /\ get_cell st c = None /\
+    st1 = with_new_cell st (CInt z) /\ get_cell st1 c = Some (CInt z) /\
+    (forall c', c' <> c -> get_cell st1 c' = get_cell st c')
+  end.
+Proof. exact EvalForIn.forin_range_step_fresh_cell. Qed.
+Print Assumptions forin_range_step_fresh_cell.
+
+(* distinct iterations => distinct cells: the cells bound to the loop variable by the iterations
+   of a range loop (ascending or descending, whatever the body does) are strictly increasing,
+   hence pairwise different, and none of them existed when the loop started *)
+Theorem forin_range_cells_distinct : forall genv k x e body n s st, is_range s ->
+  let cs := forin_cells (fun c st' => eval genv k ((x, c) :: e) st' body) n s st in
+  StronglySorted lt cs /\ NoDup cs /\ Forall (fun c => get_cell st c = None) cs.
+Proof. exact EvalForIn.forin_range_cells_distinct. Qed.
+Print Assumptions forin_range_cells_distinct.
+
+(* a function value created in iteration k keeps iteration k's cell: it stores the environment
+   (x -> c) :: e of that iteration, and whenever it is called later (any store, any arguments,
+   during or after the loop) the loop variable's name denotes that same cell c *)
+Theorem forin_closure_reads_own_cell : forall genv k x c e st fd,
+  eval genv (S k) ((x, c) :: e) st (ELambda fd) =
+    (ROk (length (cells st)), with_new_cell st (CFun fd ((x, c) :: e))) /\
+  forall k' cs penv st',
+    bind_params (fd_params fd) cs = Some penv ->
+    (forall p, In p (fd_params fd) -> fst (fst p) <> x) ->
+    eval genv (S k') (penv ++ (x, c) :: e) st' (EVar x) = (ROk c, st').
+Proof. exact EvalForIn.forin_closure_reads_own_cell. Qed.
+Print Assumptions forin_closure_reads_own_cell.
+
+(* over an array the loop variable IS the element cell (no new cell, no copy), read through the
+   iterable's cell at the start of every iteration *)
+Theorem forin_arr_step_shares_cell : forall st ca i ar elems,
+  get_cell st ca = Some (CArr (Some ar)) -> nth_error (arrs st) ar = Some elems ->
+  forin_step st (LArr ca i) =
+  match nth_error elems i with
+  | Some c => LsBind c st (LArr ca (S i))
+  | None => LsDone
+  end.
+Proof. exact EvalForIn.forin_arr_step_shares_cell. Qed.
+Print Assumptions forin_arr_step_shares_cell.
+
+(* var fs = [f0, f0, f0]; for (i in [3 .. 1]) { fs[i - 1] = let func () -> int { i } };
+   print(fs[0]()); print(fs[1]()); print(fs[2]())       prints 1 2 3: three cells, not one counter *)
+Definition prog_forin_closures (a b : Z) : program :=
+  let f0 := ELambda (FDef 9%N [] TInt [IExpr (EInt 0)] [] None) in
+  let cap := ELambda (FDef 9%N [] TInt [IExpr (EVar 2%N)] [] None) in
+  let call i := EPrint (ECall (EIndex (EVar 1%N) (EInt i)) []) in
+  {| p_recs := [];
+     p_funcs := [FDef 7%N [] TInt
+        [IVar 1%N (EArrLit [f0; f0; f0] (TFun [] TInt));
+         IExpr (EForInRange 2%N (EInt a) (EInt b)
+                  (EAssign (EIndex (EVar 1%N) (EBin Sub (EVar 2%N) (EInt 1))) cap));
+         IExpr (call 0%Z); IExpr (call 1%Z); IExpr (call 2%Z)] [] None];
+     p_main := 7%N |}.
+Example ex_forin_closures_down : run_program 40 (prog_forin_closures 3 1) [] = OResult (CInt 3) [1; 2; 3]%Z.
+Proof. vm_compute. reflexivity. Qed.
+Example ex_forin_closures_up : run_program 40 (prog_forin_closures 1 3) [] = OResult (CInt 3) [1; 2; 3]%Z.
+Proof. vm_compute. reflexivity. Qed.
